@@ -75,12 +75,16 @@ func (c *c16Run) fail(k, d string) {
 }
 
 // volume sums the record payload bytes the taps saw for a user (handshake flights excluded).
+// Upload is what the server took out of the network (a record the client wrote just before the
+// connection was torn down and that the server never read is not usage); download is what the
+// server wrote.
 func (u *c16User) volume() (up, down int64) {
 	for _, p := range u.allPipes {
 		w0, _ := p.Wire(0)
 		recs, _ := vk.SplitRecords(w0)
+		taken := p.Consumed(0)
 		for i, r := range recs {
-			if i >= 1 { // after the ClientHello
+			if i >= 1 && int64(r.Off+5+len(r.Payload)) <= taken { // after the ClientHello
 				up += int64(len(r.Payload))
 			}
 		}
